@@ -24,6 +24,8 @@ import (
 	"strings"
 	"time"
 
+	"github.com/johnkerl/miller/v6/pkg/transformers"
+
 	"verif/harness/vf"
 )
 
@@ -45,6 +47,9 @@ var layouts = []layout{
 	{"first", []string{"x", "id", "y", "w", "z"}},
 	{"last", []string{"id", "y", "w", "z", "x"}},
 }
+
+// spell grid: a slimmer record (id, y, x, w); {z} names a field that does not exist
+var slimLayout = layout{"slim", []string{"id", "y", "x", "w"}}
 
 type poolArgs struct {
 	Deadline int64 `json:"deadline"` // unix seconds; 0 = none
@@ -71,6 +76,8 @@ type inst struct {
 	outName  map[string]string // actual input name -> output name
 	argv     []string          // without output-format flags
 	tmpPref  string
+	probed   bool // the command was tried on the plainest record after its first failure
+	dead     bool // ... and failed there too: it rejects every input
 }
 
 var dslFieldRe = regexp.MustCompile(`\$(id|x|y|w|z)\b`)
@@ -108,6 +115,9 @@ func newInst(t *tmpl, f *format, l *layout, flag string, mainOpt []string) *inst
 		ljid = "1"
 	}
 	in.tmpPref = filepath.Join("/dev/shm", fmt.Sprintf("verif-c03-%d-split", os.Getpid()))
+	if _, ok := in.actual["z"]; !ok {
+		in.actual["z"] = "nosuchz"
+	}
 	rep := strings.NewReplacer(
 		"{id}", in.actual["id"], "{x}", in.actual["x"], "{y}", in.actual["y"], "{w}", in.actual["w"], "{z}", in.actual["z"],
 		"{X}", strings.ToUpper(in.actual["x"]), "{all}", strings.Join(in.order, ","), "{rev}", strings.Join(rev, ","),
@@ -245,7 +255,7 @@ func symCounts(s string, acc *[256]int64) {
 
 type tally struct {
 	xCompared, otherCompared, assignedSkipped, unidentified, outRecs, rejected, runs, failedRuns, nidxUnaligned int64
-	sym                                                                                                      [256]int64
+	sym                                                                                                         [256]int64
 }
 
 // runBatch runs one invocation on the batch; a failed run (the reader rejected
@@ -255,7 +265,7 @@ func (r *runner) runBatch(in *inst, batch []string, tl *tally, failBudget *int) 
 	if len(batch) == 0 {
 		return
 	}
-	if *failBudget <= 0 {
+	if *failBudget <= 0 || in.dead {
 		tl.rejected += int64(len(batch))
 		return
 	}
@@ -265,7 +275,6 @@ func (r *runner) runBatch(in *inst, batch []string, tl *tally, failBudget *int) 
 	cmd := in.command(in.f.ouFlags)
 	res := vf.RunMlr(cmd, vf.MlrOpts{Stdin: &input, Files: files})
 	tl.runs++
-	r.w.Eval(1)
 	var shape [][]kv
 	if res.OK() && in.f.out == "nidx" {
 		// key structure of the output records from a second run with a keyed writer; only the KEYS are used
@@ -284,14 +293,30 @@ func (r *runner) runBatch(in *inst, batch []string, tl *tally, failBudget *int) 
 			}
 		}
 	}
-	if res.Panic != "" {
-		r.w.Violation(fmt.Sprintf("L%02d panic[%s](%s | %s | %s | %s)", len(batch[0]), in.t.verb, in.t.name, in.flag, in.f.name, in.l.name),
-			fmt.Sprintf("mlr %s panics: %s", strings.Join(cmd, " "), res.Panic), map[string]any{"argv": cmd, "stdin": input, "files": files, "panic": res.Panic, "stack": res.Stack})
-		return
+	if res.Panic != "" && len(batch) == 1 {
+		// a panic emits nothing to compare: property C18's business, recorded in evidence here
+		r.w.AddSet("panics-observed(C18)", fmt.Sprintf("%s on x=%q: %s", in.t.name, batch[0], firstLine(res.Panic)))
 	}
 	if !res.OK() {
 		tl.failedRuns++
 		*failBudget--
+		if !in.probed {
+			// first failure of this case: does the command work at all (on the plainest record)? A form that does not
+			// parse, or a function that aborts on every call, emits nothing for any input: nothing to assert.
+			in.probed = true
+			probe := "1"
+			if len(batch) > 1 || batch[0] != probe {
+				pin := encode(in.f.in, in.records([]string{probe}))
+				pres := vf.RunMlr(cmd, vf.MlrOpts{Stdin: &pin, Files: in.files([]string{probe})})
+				tl.runs++
+				if !pres.OK() {
+					in.dead = true
+					r.w.AddSet("reject-reasons", in.t.verb+" (every input): "+firstLine(pres.Stderr+pres.Err+pres.Panic))
+					tl.rejected += int64(len(batch))
+					return
+				}
+			}
+		}
 		if len(batch) == 1 {
 			tl.rejected++
 			r.w.AddSet("reject-reasons", in.t.verb+": "+firstLine(res.Stderr+res.Err))
@@ -389,7 +414,7 @@ func (r *runner) judge(in *inst, batch []string, recs [][]kv, out [][]kv, cmd []
 				if name != xName {
 					what = in.logical[name]
 				}
-				r.viol(in, "text", batch[idx], cmd, input, fmt.Sprintf("field %s (%s) of record id r%d: input text %q, output text %q", on, what, idx, ip.v, got))
+				r.viol(in, "text", ip.v, cmd, input, fmt.Sprintf("field %s (%s) of record id r%d: input text %q, output text %q", on, what, idx, ip.v, got))
 			} else if name == xName {
 				tl.xCompared++
 				symCounts(ip.v, &tl.sym)
@@ -440,6 +465,7 @@ func shellJoin(a []string) string {
 func (r *runner) flush(in *inst, tl *tally) {
 	w := r.w
 	w.Nontrivial(tl.xCompared)
+	w.Eval(tl.outRecs - tl.unidentified) // one oracle evaluation per output record traced back to its input record
 	c := func(k string, n int64) {
 		if n != 0 {
 			w.Count(k, n)
@@ -534,31 +560,125 @@ func domainFilter(in *inst, all []string) (keep []string, excluded int64) {
 const batchB = 256
 
 // readers grid: one case per (template, inference flag, format, layout[, extra main option]).
+type rcase struct {
+	t    *tmpl
+	f    *format
+	l    *layout
+	flag string
+	opt  []string
+	wide bool // the larger spelling set (thorough only)
+}
+
+var extraMainOpts = [][]string{{"--records-per-batch", "1"}, {"--no-hash-records"}, {"--hash-records"}, {"--nr-progress-mod", "1000000"}, {"--no-auto-flatten"}, {"--no-auto-unflatten"},
+	{"--infer-none"}, {"--infer-int-as-float"}, {"--infer-octal"}, {"--no-dedupe-field-names"}, {"--records-per-batch", "7"}, {"--ofs", ","}}
+
+func skipFormat(t *tmpl, f *format) bool {
+	return t.hetero && (f.out == "csv" || f.out == "tsv" || f.out == "nidx")
+}
+
+// readerCases: quick = a pairwise-covering selection of (format, layout, flag) per template (every format, every
+// layout, every flag occurs with every template; dkvp x mid gets all four flags); thorough = the full product on the
+// small spelling set plus the quick selection on the large one.
+func readerCases(cat *catalogue, quick bool) []rcase {
+	var out []rcase
+	add := func(t *tmpl, fi, li int, flag string, opt []string, wide bool) {
+		if skipFormat(t, &formats[fi]) {
+			return
+		}
+		out = append(out, rcase{t, &formats[fi], &layouts[li], flag, opt, wide})
+	}
+	// pass 1: the covering selection for every template (thorough: on the large spelling set) and the extra main options
+	for _, t := range cat.templates {
+		isFn := strings.HasPrefix(t.group, "dslfn:")
+		isPair := t.group == "chain" && t.light
+		wide := !quick
+		for _, flag := range inferFlags {
+			add(t, 0, 0, flag, nil, wide)
+		}
+		if !isPair && isFn {
+			add(t, 1, 1, "", nil, wide)
+		}
+		if !isPair && !isFn {
+			for fi := 1; fi < len(formats); fi++ {
+				add(t, fi, fi%len(layouts), inferFlags[fi%len(inferFlags)], nil, wide)
+			}
+			for li := 1; li < len(layouts); li++ {
+				add(t, 0, li, inferFlags[(li+1)%len(inferFlags)], nil, wide)
+			}
+		}
+		if !isFn && !isPair && (t.core1 || !quick) {
+			// writer options of CSV/TSV that change quoting only (the decoder is RFC-4180, so quoting is transparent)
+			add(t, 1, 0, "", []string{"--quote-all"}, false)
+			add(t, 1, 1, "-O", []string{"--quote-original"}, false)
+			add(t, 1, 2, "-A", []string{"--lazy-quotes"}, false)
+			for oi, opt := range extraMainOpts {
+				if quick {
+					add(t, 0, oi%2, "", opt, false)
+				} else {
+					add(t, 0, 0, "", opt, false)
+					add(t, 0, 1, "", opt, false)
+				}
+			}
+		}
+	}
+	if quick {
+		return out
+	}
+	// pass 2 (thorough): the full product format x layout x flag on the small spelling set
+	for _, t := range cat.templates {
+		isFn := strings.HasPrefix(t.group, "dslfn:")
+		if t.group == "chain" && t.light {
+			continue
+		}
+		for fi := range formats {
+			for li := range layouts {
+				if isFn && (li > 1 || fi == 2 || fi > 3) {
+					continue // generated function forms: dkvp, csv, xtab x (mid, 13th)
+				}
+				for _, flag := range inferFlags {
+					add(t, fi, li, flag, nil, false)
+				}
+			}
+		}
+	}
+	return out
+}
+
 func readersWorker(w *vf.Worker) {
 	var a poolArgs
 	json.Unmarshal(w.Args, &a)
 	cat := buildCatalogue()
-	S := s2(a.S2Len)
+	narrow := s2(2)
+	var wideSet []string
 	r := &runner{w: w, deadline: a.Deadline}
-	var idx uint64
-	type extra struct{ opt []string }
-	extras := [][]string{{"--records-per-batch", "1"}, {"--no-hash-records"}, {"--hash-records"}, {"--nr-progress-mod", "1000000"}, {"--no-auto-flatten"}, {"--no-auto-unflatten"}, {"--infer-none"}, {"--infer-int-as-float"}, {"--infer-octal"}, {"--no-dedupe-field-names"}, {"--fflatsep", ":"}, {"--load", "/dev/null"}}
 	only := os.Getenv("VERIF_C03_ONLY") // debugging: substring of the template name
-	runCase := func(t *tmpl, f *format, l *layout, flag string, opt []string) {
-		idx++
+	cases := readerCases(cat, w.Quick())
+	for i, cs := range cases {
+		idx := uint64(i + 1)
 		if !w.Mine(idx) {
-			return
+			continue
 		}
+		t := cs.t
 		if only != "" && !strings.Contains(t.name, only) {
-			return
+			continue
 		}
 		if r.overBudget() {
-			w.Inexhaustive("readers grid: time budget reached; remaining cases skipped")
-			return
+			w.Inexhaustive(fmt.Sprintf("readers grid: time budget reached at case %d of %d; the remaining cases of this shard were skipped", i, len(cases)))
+			break
 		}
 		w.Begin(idx)
-		w.Label(func() string { return fmt.Sprintf("%s | %s | %s | %s | %v", t.name, flag, f.name, l.name, opt) })
-		in := newInst(t, f, l, flag, opt)
+		w.Label(func() string {
+			return fmt.Sprintf("%s | %s | %s | %s | %v", t.name, cs.flag, cs.f.name, cs.l.name, cs.opt)
+		})
+		S := narrow
+		if cs.wide {
+			if wideSet == nil {
+				wideSet = s2(a.S2Len)
+			}
+			S = wideSet
+		}
+		t0 := time.Now()
+		in := newInst(t, cs.f, cs.l, cs.flag, cs.opt)
 		keep, excl := domainFilter(in, S)
 		w.Count("spellings_outside_format_or_verb_domain(excluded)", excl)
 		w.Count("spellings_inside_domain", int64(len(keep)))
@@ -572,113 +692,100 @@ func readersWorker(w *vf.Worker) {
 			r.runBatch(in, keep[i:j], &tl, &budget)
 			w.Heartbeat()
 		}
-		if budget <= 0 {
-			w.AddSet("templates-rejecting-most-input", t.name)
+		if budget <= 0 || in.dead {
+			w.AddSet("templates-rejecting-most-input", t.name+" @ "+flagName(cs.flag)+" "+cs.f.name)
 		}
 		r.flush(in, &tl)
-	}
-	for _, t := range cat.templates {
-		for fi := range formats {
-			f := &formats[fi]
-			if t.hetero && (f.out == "csv" || f.out == "tsv" || f.out == "nidx") {
-				continue
-			}
-			if t.light && fi > 1 {
-				continue
-			}
-			for li := range layouts {
-				l := &layouts[li]
-				if t.light && li > 1 {
-					continue
-				}
-				for _, flag := range inferFlags {
-					if t.group == "chain" && t.light && (fi > 0 || li > 0) {
-						continue
-					}
-					runCase(t, f, l, flag, nil)
-				}
-			}
-		}
-		if !t.light && t.group != "chain" {
-			for _, opt := range extras {
-				for li := 0; li < 2; li++ {
-					runCase(t, &formats[0], &layouts[li], "", opt)
-				}
-			}
+		if d := time.Since(t0); d > 3*time.Second {
+			w.AddSet("slow-cases", fmt.Sprintf("%5.1fs %s | %s | %s | %s | %v (%d runs)", d.Seconds(), t.name, cs.flag, cs.f.name, cs.l.name, cs.opt, tl.runs))
 		}
 	}
 	if w.Shard == 0 {
-		w.Sample(map[string]any{"grid": "readers", "argv": newInst(cat.templates[100], &formats[1], &layouts[1], "-O", nil).command(formats[1].ouFlags), "spellings_per_case": len(S), "first_input_record": encode("csv", newInst(cat.templates[100], &formats[1], &layouts[1], "-O", nil).records([]string{"0x00ff", "1e5"})[:1])})
+		ex := newInst(cat.templates[100], &formats[1], &layouts[1], "-O", nil)
+		w.Sample(map[string]any{"grid": "readers", "cases": len(cases), "argv": ex.command(formats[1].ouFlags), "spellings_per_case": len(narrow), "first_input_record": encode("csv", ex.records([]string{"0x00ff", "1e5"})[:1])})
 	}
 }
 
 const batchA = 1000
 const blockA = 20 * batchA
 
-// spell grid: every string up to MaxLen x core readers x inference flags, dkvp in and out, x in the middle.
+// spell grid: every string up to MaxLen x core readers x inference flags, dkvp in and out, record id,y,x,w.
 func spellWorker(w *vf.Worker) {
 	var a poolArgs
 	json.Unmarshal(w.Args, &a)
 	cat := buildCatalogue()
-	var core []*tmpl
+	type pass struct {
+		core   []*tmpl
+		maxLen int
+	}
+	var c1, c2 []*tmpl
 	for _, t := range cat.templates {
-		if t.core {
-			core = append(core, t)
+		if t.core1 {
+			c1 = append(c1, t)
+		} else if t.core {
+			c2 = append(c2, t)
 		}
 	}
-	total := countStrings(a.MaxLen)
+	passes := []pass{{c1, a.MaxLen}}
+	if !w.Quick() {
+		passes = append(passes, pass{c2, a.MaxLen - 1})
+	}
 	r := &runner{w: w, deadline: a.Deadline}
 	f := &formats[0]
-	l := &layouts[0]
+	l := &slimLayout
 	var idx uint64
-	// block-major order: all readers see the short strings before anyone sees the long ones
-	for lo := uint64(0); lo < total; lo += blockA {
-		hi := lo + blockA
-		if hi > total {
-			hi = total
-		}
-		var block []string
-		for _, t := range core {
-			for _, flag := range inferFlags {
-				idx++
-				if !w.Mine(idx) {
-					continue
-				}
-				if only := os.Getenv("VERIF_C03_ONLY"); only != "" && !strings.Contains(t.name, only) {
-					continue
-				}
-				if r.overBudget() {
-					w.Inexhaustive(fmt.Sprintf("spell grid: time budget reached inside strings %d..%d of %d", lo, hi, total))
-					return
-				}
-				w.Begin(idx)
-				w.Label(func() string { return fmt.Sprintf("%s | %s | strings %d..%d", t.name, flag, lo, hi) })
-				if block == nil {
-					block = make([]string, 0, hi-lo)
-					for k := lo; k < hi; k++ {
-						block = append(block, nthString(k))
+	only := os.Getenv("VERIF_C03_ONLY")
+	for _, ps := range passes {
+		total := countStrings(ps.maxLen)
+		// block-major order: all readers see the short strings before anyone sees the long ones
+		for lo := uint64(0); lo < total; lo += blockA {
+			hi := lo + blockA
+			if hi > total {
+				hi = total
+			}
+			var block []string
+			for _, t := range ps.core {
+				for _, flag := range inferFlags {
+					idx++
+					if !w.Mine(idx) {
+						continue
 					}
-				}
-				in := newInst(t, f, l, flag, nil)
-				keep, excl := domainFilter(in, block)
-				w.Count("spellings_outside_format_or_verb_domain(excluded)", excl)
-				w.Count("spellings_inside_domain", int64(len(keep)))
-				var tl tally
-				budget := 64
-				for i := 0; i < len(keep); i += batchA {
-					j := i + batchA
-					if j > len(keep) {
-						j = len(keep)
+					if only != "" && !strings.Contains(t.name, only) {
+						continue
 					}
-					r.runBatch(in, keep[i:j], &tl, &budget)
-					w.Heartbeat()
+					if r.overBudget() {
+						w.Inexhaustive(fmt.Sprintf("spell grid: time budget reached inside strings %d..%d of %d (length <= %d)", lo, hi, total, ps.maxLen))
+						return
+					}
+					w.Begin(idx)
+					w.Label(func() string { return fmt.Sprintf("%s | %s | strings %d..%d", t.name, flag, lo, hi) })
+					if block == nil {
+						block = make([]string, 0, hi-lo)
+						for k := lo; k < hi; k++ {
+							block = append(block, nthString(k))
+						}
+					}
+					in := newInst(t, f, l, flag, nil)
+					keep, excl := domainFilter(in, block)
+					w.Count("spellings_outside_format_or_verb_domain(excluded)", excl)
+					w.Count("spellings_inside_domain", int64(len(keep)))
+					var tl tally
+					budget := 64
+					for i := 0; i < len(keep); i += batchA {
+						j := i + batchA
+						if j > len(keep) {
+							j = len(keep)
+						}
+						r.runBatch(in, keep[i:j], &tl, &budget)
+						w.Heartbeat()
+					}
+					r.flush(in, &tl)
 				}
-				r.flush(in, &tl)
 			}
 		}
 	}
 	if w.Shard == 0 {
-		w.Sample(map[string]any{"grid": "spell", "strings": total, "core_readers": len(core), "last_string": nthString(total - 1)})
+		w.Sample(map[string]any{"grid": "spell", "strings": countStrings(a.MaxLen), "core_readers_all_lengths": len(c1), "core_readers_one_shorter": len(c2), "last_string": nthString(countStrings(a.MaxLen) - 1)})
 	}
 }
 
@@ -702,7 +809,7 @@ func run(c *vf.Ctx) {
 	a := poolArgs{}
 	if quick {
 		a.MaxLen, a.S2Len = 4, 2
-		bud1, bud2 = 50*time.Second, 80*time.Second
+		bud1, bud2 = 55*time.Second, 85*time.Second
 	} else {
 		a.MaxLen, a.S2Len = 5, 3
 		bud1, bud2 = 7*time.Minute, 13*time.Minute
@@ -711,9 +818,9 @@ func run(c *vf.Ctx) {
 		a.MaxLen, _ = strconv.Atoi(s)
 	}
 	a.Deadline = start.Add(bud1).Unix()
-	res1 := c.RunPool(vf.PoolSpec{Worker: "readers", Shards: 192, Args: a})
+	res1 := c.RunPool(vf.PoolSpec{Worker: "readers", Shards: 192, Args: a, StallSecs: 120})
 	a.Deadline = start.Add(bud2).Unix()
-	res2 := c.RunPool(vf.PoolSpec{Worker: "spell", Shards: 128, Args: a})
+	res2 := c.RunPool(vf.PoolSpec{Worker: "spell", Shards: 128, Args: a, StallSecs: 120})
 
 	// ---- evidence
 	byPrefix := func(p string) map[string]int64 {
@@ -775,8 +882,9 @@ func run(c *vf.Ctx) {
 	c.Extra["templates_per_group"] = nT
 	c.Extra["templates_total"] = len(cat.templates)
 	c.Extra["templates_effective(x compared at least once)"] = len(eff)
-	c.Extra["templates_never_comparing_x(vacuous)"] = silent
+	c.Extra["templates_never_comparing_x(vacuous)"] = append([]string{}, silent...)
 	c.Extra["templates_with_unidentified_output_not_declared"] = vf.SortedSet(res1, "templates-with-unidentified-output")
+	c.Extra["slow_cases(>3s wall, informational)"] = vf.SortedSet(res1, "slow-cases")
 	c.Extra["templates_rejecting_most_input"] = vf.SortedSet(res1, "templates-rejecting-most-input")
 	rr := vf.SortedSet(res1, "reject-reasons")
 	if len(rr) > 60 {
@@ -784,12 +892,17 @@ func run(c *vf.Ctx) {
 	}
 	c.Extra["reject_reasons(sample)"] = rr
 	c.Extra["excluded_verbs"] = cat.excluded
-	c.Extra["uncovered_verbs(in lookup table, no template, not excluded)"] = cat.uncoveredVerbs
+	c.Extra["uncovered_verbs(in lookup table, no template, not excluded)"] = append([]string{}, cat.uncoveredVerbs...)
 	c.Extra["verb_options_no_template_uses"] = cat.verbOptions
-	c.Extra["verbs_in_lookup_table"] = len(verbHits) + len(cat.excluded) + len(cat.uncoveredVerbs) - boolInt(verbHits["chain"] > 0)
+	c.Extra["verbs_in_lookup_table"] = len(transformers.TRANSFORMER_LOOKUP_TABLE)
+	c.Extra["verbs_with_x_compared"] = len(verbHits) - boolInt(verbHits["chain"] > 0)
 	c.Extra["spell_grid_max_length"] = a.MaxLen
 	c.Extra["spell_grid_strings"] = countStrings(a.MaxLen)
-	c.Extra["readers_grid_spellings"] = len(s2(a.S2Len))
+	c.Extra["readers_grid_spellings_small_set"] = len(s2(2))
+	if !quick {
+		c.Extra["readers_grid_spellings_large_set"] = len(s2(a.S2Len))
+	}
+	c.Extra["readers_grid_cases"] = len(readerCases(cat, quick))
 	c.DistinctNontrivial = c.Counters["x_cells_compared"]
 
 	// vacuity guards that are harness bugs when they fire
